@@ -30,17 +30,18 @@ type Header struct {
 	Comps     []CompSpec `json:"comps"`
 	NRes      int        `json:"nres"`
 	Listener  bool       `json:"listener"`
-	LS        int        `json:"ls"`       // subscription bits of the listener
-	LC        []int      `json:"lc"`       // component restriction of the listener
-	LHasC     bool       `json:"lhasc"`    // whether a component restriction is given
-	Probe     bool       `json:"probe"`    // listener tries a structural operation when the world is locked at delivery
-	Shape     bool       `json:"shape"`    // log hidden-state digest
-	Sweep     bool       `json:"sweep"`    // sweep registered filters after every step
-	NoObs     bool       `json:"noobs"`    // skip the full observation (large worlds)
-	GCEvery   int        `json:"gcEvery"`  // force GC every n ops (0 = never)
-	Twin      string     `json:"twin"`     // "" | "reset" | "load": fork a twin world at Reset / Dump
-	Dispatch  []LSpec    `json:"dispatch"` // sub-listeners of a listener.Dispatch (instead of the single listener)
-	Generic   bool       `json:"generic"`  // register the static component types of the generic API adapters (ids 0..12)
+	LS        int        `json:"ls"`            // subscription bits of the listener
+	LC        []int      `json:"lc"`            // component restriction of the listener
+	LHasC     bool       `json:"lhasc"`         // whether a component restriction is given
+	Probe     bool       `json:"probe"`         // listener tries a structural operation when the world is locked at delivery
+	Shape     bool       `json:"shape"`         // log hidden-state digest
+	Sweep     bool       `json:"sweep"`         // sweep registered filters after every step
+	NoObs     bool       `json:"noobs"`         // skip the full observation (large worlds)
+	GCEvery   int        `json:"gcEvery"`       // force GC every n ops (0 = never)
+	Twin      string     `json:"twin"`          // "" | "reset" | "load": fork a twin world at Reset / Dump
+	Dispatch  []LSpec    `json:"dispatch"`      // sub-listeners of a listener.Dispatch (instead of the single listener)
+	TrackPay  bool       `json:"trackPayloads"` // account payload objects with finalizers (C14)
+	Generic   bool       `json:"generic"`       // register the static component types of the generic API adapters (ids 0..12)
 	Ops       []Op       `json:"ops"`
 }
 
@@ -75,8 +76,8 @@ type Op struct {
 	Qi     int    `json:"qi"`
 	Reg    int    `json:"reg"`
 	R      int    `json:"r"`
-	W      int    `json:"w"`           // world index (twin schedules)
-	L      *LSpec `json:"l,omitempty"` // AddListener
+	W      int    `json:"w"`            // world index (twin schedules)
+	L      *LSpec `json:"l,omitempty"`  // AddListener
 	Ar     int    `json:"ar,omitempty"` // arity of the generic Map / Filter
 }
 
@@ -106,28 +107,29 @@ func (r *resT3) tok() int    { return r.Token }
 
 // World wraps a real ecs.World with the bookkeeping needed to execute symbolic schedules.
 type World struct {
-	h        Header
-	w        *ecs.World
-	comps    map[int]*compInfo
-	compNums []int
-	issued   []ecs.Entity
-	epoch    int // index of the first handle issued since the last Reset
-	regs     []*ecs.CachedFilter
-	regOrig  []ecs.Filter
-	regSpec  []*FSpec
-	regLive  []bool
-	queries  []*openQuery
-	resIDs   []ecs.ResID
-	resVals  map[int]interface{}
-	resSeq   int
-	events   []map[string]interface{}
-	lst      *recListener
-	disp     *listener.Dispatch
-	subs     []LSpec
-	gfs      []*gfState
-	posExtra func(q *ecs.Query) map[string]interface{}
-	valSeq   int
-	lastDump *ecs.EntityDump
+	h           Header
+	w           *ecs.World
+	comps       map[int]*compInfo
+	compNums    []int
+	issued      []ecs.Entity
+	epoch       int // index of the first handle issued since the last Reset
+	regs        []*ecs.CachedFilter
+	regOrig     []ecs.Filter
+	regSpec     []*FSpec
+	regLive     []bool
+	queries     []*openQuery
+	resIDs      []ecs.ResID
+	resVals     map[int]interface{}
+	resSeq      int
+	events      []map[string]interface{}
+	lst         *recListener
+	disp        *listener.Dispatch
+	subs        []LSpec
+	gfs         []*gfState
+	posExtra    func(q *ecs.Query) map[string]interface{}
+	valSeq      int
+	lastDump    *ecs.EntityDump
+	pendingPrev map[int64]bool
 }
 
 type recListener struct {
